@@ -29,6 +29,10 @@ func callLess(a, b *CallStm) bool {
 	if a == b {
 		return false
 	}
+	if a == nil || b == nil {
+		// An unresolved reference has no call.
+		return a == nil
+	}
 	if a.Id != b.Id {
 		return a.Id < b.Id
 	}
